@@ -28,7 +28,7 @@ def run(tier, seed):
         if ty != "Mean":
             # modular variant: the nested merge is used through its contract, not its body
             mr.check_merge_modular(pr, cr, ty, mr.ORDER[ty], f + "::<%s as Merge>::merge" % ty)
-    orders = [4, 5, 6] if tier == "quick" else [4, 5, 6, 8, 10]
+    orders = [4, 5, 6, 8, 10]   # all orders of the property's quantifier in both tiers (sympy decides order 10 in < 1 s)
     for N in orders:
         moments_merge(pr, N)
     obs = pr.obs
